@@ -1,5 +1,6 @@
 (* Context driver: runs the Ctx model on ctx-cases. *)
 open Model
+type string = String.t
 open Common
 
 let rec tree_of_sexp (x : Sexp.t) : ctree =
